@@ -157,8 +157,45 @@ fn long_list_stratum(ctx: &mut Ctx) {
     }
 }
 
+/// ranges with long alternative lists (17..300 alternatives; a prerelease-admitting alternative
+/// late in the list in one family): the list holds versions at and next to the bounds of the
+/// alternatives around positions 0, 16, 32, 64, the middle and the end
+fn long_range_stratum(ctx: &mut Ctx) {
+    ctx.stratum("LR-long-alternative-lists", false);
+    let tiv = crate::setops::table_intervals(&crate::setops::chain());
+    let n = ctx.tier.n(80, 4_000);
+    for i in 0..n {
+        if !ctx.take() {
+            continue;
+        }
+        let mut r = Rng::for_case(ctx.seed, "C14-LR", i);
+        let a = match crate::setops::long_alt_operand_sized(&mut r, &tiv, 0) {
+            Some(a) => a,
+            None => continue,
+        };
+        let k = a.b.0.len();
+        let mut idx: Vec<usize> = vec![0, 1, 15, 16, 17, 31, 32, 33, 63, 64, 65, k / 2, k.saturating_sub(2), k - 1];
+        for _ in 0..3 {
+            idx.push(r.below(k));
+        }
+        let mut basis = vec![];
+        for j in idx {
+            if j < k {
+                basis.extend(a.b.0[j].versions());
+            }
+        }
+        let mut pool = probe_set(&basis);
+        r.shuffle(&mut pool);
+        let len = 8 + r.below(24);
+        let list: Vec<MV> = pool.into_iter().take(len).collect();
+        ctx.class(&format!("long-range:{}", if k > 64 { ">64" } else if k > 32 { "33..64" } else { "17..32" }));
+        judge(ctx, &a.text, &list, &mut r, 0);
+    }
+}
+
 pub fn run(ctx: &mut Ctx) {
     long_list_stratum(ctx);
+    long_range_stratum(ctx);
     ctx.stratum("D-directed", true);
     let d: Vec<(&str, Vec<&str>)> = vec![
         ("1.2", vec!["1.2.3", "1.2.4"]),
